@@ -15,6 +15,7 @@ def extra(ctx):
     import glue_checks
     glue_checks.single_suite(ctx, {'score'}, [dict(max_n=5), dict(max_n=4, multi=True, nbest_max=3), dict(max_n=4, mixed_heads=True, multi=True)], ctx.budget(600, 6000))
     glue_checks.real_grammar_suite(ctx, {'score'}, ctx.budget(100, 1000))
+    glue_checks.lazy_suite(ctx, ctx.budget(60, 600))      # incl. the Lean `treeScore` of every real tree (theorem tree_score)
 
 
 def run(ctx):
